@@ -65,11 +65,11 @@ func c13(r *Report) propMeta {
 		{Op: "EQL", A: []string{"call:AccAddress.String", "param:sender"}, B: []string{"field:Keeper.authority"}, Want: false, Desc: "sender != authority"},
 		{Op: "EQL", A: []string{"field:CurrentGroup.GroupID"}, B: []string{"const:0"}, Want: false, Desc: "currentGroupID != 0"},
 	}, GateOpts{})
-	r.Gate("signing-after-escrow", cs, CallEff("TSSKeeper.RequestSigning"), []Cond{nilErrOf("BankKeeper.SendCoinsFromAccountToModule")}, GateOpts{LoopAll: true, MinSites: 2})
+	r.Gate("signing-after-escrow", cs, CallEff("TSSKeeper.RequestSigning"), []Cond{nilErrOf("BankKeeper.SendCoinsFromAccountToModule")}, GateOpts{Conditional: true, MinSites: 2}) // the escrow happens only when a fee is due
 	r.Count("one-escrow", cs, []Effect{CallEff("BankKeeper.SendCoinsFromAccountToModule")}, "ok", 0, 1)
 	r.ArgHas("recorded-fee-per-signer", cs, "Keeper.AddSigning", 1, 1, "field:Params.FeePerSigner")
 	r.ArgHas("recorded-requester", cs, "Keeper.AddSigning", 2, 1, "^param:sender")
-	r.Gate("record-only-if-current-signing-ok", cs, CallEff("Keeper.AddSigning"), []Cond{{Op: "EQL", A: []string{"call:TSSKeeper.RequestSigning", "field:CurrentGroup.GroupID"}, B: []string{"const:nil"}, Want: true, Desc: "RequestSigning(current group) == nil"}}, GateOpts{LoopAll: true, FailIsError: true})
+	r.Gate("record-only-if-current-signing-ok", cs, CallEff("Keeper.AddSigning"), []Cond{{Op: "EQL", A: []string{"call:TSSKeeper.RequestSigning", "field:CurrentGroup.GroupID"}, B: []string{"const:nil"}, Want: true, Desc: "RequestSigning(current group) == nil"}}, GateOpts{Conditional: true, FailIsError: true})
 
 	r.Rule("C13.R4", "E3+E12 payout")
 	oc := bCB + "OnSigningCompleted"
